@@ -74,8 +74,12 @@ type behaviour struct {
 	// http.NewResponseController): a streaming handler that wants the header out before its first chunk. On a writer that
 	// can flush this sends the implicit 200; bareOrigin: the writer under the Mux offers Header, Write and WriteHeader
 	// only (behind http.TimeoutHandler, a middleware's wrapper), and the flush sends nothing.
-	flush       int
-	bareOrigin  bool
+	flush      int
+	bareOrigin bool
+	// early != 0: the handler sends an informational response first (103 Early Hints with Link headers, 102 Processing)
+	// - not a final status: the client goes on waiting for the status that follows, set explicitly or the implicit 200.
+	// Only against the real server: a recorder takes the first WriteHeader for the final one.
+	early       int
 	bodyKind    int // when body: 0 one non-empty Write, 1 a zero-length Write, 2 a zero-length Write followed by a non-empty one, 3 two non-empty Writes
 	panicKind   int
 	panicBefore bool // panic before writing anything
@@ -103,6 +107,9 @@ func (b behaviour) String() string {
 	}
 	if b.ctxDone > 0 {
 		s += []string{"", " (request context already cancelled)", " (handler swaps in a request past its deadline)"}[b.ctxDone]
+	}
+	if b.early != 0 {
+		s += fmt.Sprintf(" (sends informational %d first)", b.early)
 	}
 	if b.flush > 0 {
 		s += []string{"", " flushesFirst(Flush)", " flushesFirst(FlushError)", " flushesFirst(ResponseController)"}[b.flush]
@@ -855,6 +862,10 @@ func TestRealServer(t *testing.T) {
 		"13": {body: true, bodyKind: 6, panicKind: pError, pstr: "after Fprintf"}, "14": {status: 206, body: true, bodyKind: 4, panicKind: pString, pstr: "x"},
 		// a streaming handler that flushes the header out first; the connection has sent its 200 by the time the handler panics
 		"15": {flush: 1, panicKind: pString, pstr: "after a flush"}, "16": {flush: 2, body: true}, "17": {flush: 3, panicKind: pInt, pint: 9}, "18": {flush: 1},
+		// informational responses before the final status: 103 then an explicit status, 102 then a body under the implicit
+		// 200, 103 then nothing at all, and a panic after the hints - before or after a final status
+		"19": {early: 103, status: 404}, "20": {early: 103, status: 200, body: true, panicKind: pString, pstr: "after hints and a body"}, "21": {early: 102, body: true},
+		"22": {early: 103}, "23": {early: 103, panicKind: pError, pstr: "after the hints, before any final status"}, "24": {early: 102, status: 500, body: true},
 	}
 	mux.Handle("/h/:id", httpd.MethodAll, func(s *httpd.Store) {
 		b := behaviours[s.RouteParam("id")]
@@ -868,6 +879,10 @@ func TestRealServer(t *testing.T) {
 			s.W.FlushError()
 		case 3:
 			http.NewResponseController(s.W).Flush()
+		}
+		if b.early != 0 {
+			s.W.Header().Set("Link", "</style.css>; rel=preload; as=style")
+			s.W.WriteHeader(b.early)
 		}
 		if b.status != 0 {
 			s.W.WriteHeader(b.status)
